@@ -79,7 +79,7 @@ def cases(rng, tier):
 
 def _cases(rng, tier):
     out = []
-    perts = ["none", "nonce", "access_token", "code", "client", "issuer", "key", "nonce-missing", "no-at", "no-code"]
+    perts = ["none", "nonce", "access_token", "code", "client", "issuer", "key", "nonce-missing", "no-at", "no-code", "token-request-nonce"]
     offs = [(-10, 0), (3599, 0), (3600, 0), (3601, 0), (3650, 60), (3660, 60), (3661, 60), (3600.25, 0), (-61, 60), (-59, 60)]
     for rt in RTS:
         for alg in (ALGS if tier == "thorough" else [ALGS[(RTS.index(rt) * 5 + i * 7) % 12] for i in range(4)]):
@@ -152,7 +152,7 @@ def canon_err(e):
     return {"raised": type(e).__name__}
 
 
-def issue(rt, alg, nonce="n-0S6_WzA2Mj"):
+def issue(rt, alg, nonce="n-0S6_WzA2Mj", token_nonce=None):
     """run the real provider for one response type; returns (id_token, access_token, code, store)"""
     store, srv, rp = ms.build(oidc=True)
     store.jwt = {"key": authlib_key(alg, 1, True), "alg": alg, "iss": ISS, "exp": 3600}
@@ -174,6 +174,8 @@ def issue(rt, alg, nonce="n-0S6_WzA2Mj"):
         f = dict(grant_type="authorization_code", code=code, redirect_uri="https://c/cb")
         if cid == "pub":
             f["client_id"] = "pub"
+        if token_nonce is not None:
+            f["nonce"] = token_nonce          # a nonce parameter on the TOKEN request: the ID Token's nonce is the authentication request's
         r2 = srv.create_token_response(Req("POST", "https://as.example/token", f, hdr))
         if r2.status != 200:
             return {"error": r2.body.get("error")}, None, None, store
@@ -210,7 +212,7 @@ def impl(c):
     # e2e
     rt, alg, pert = c["rt"], c["alg"], c["pert"]
     nonce = "n-0S6_WzA2Mj"
-    idt, at, code, store = issue(rt, alg, nonce)
+    idt, at, code, store = issue(rt, alg, nonce, token_nonce="other-nonce" if pert == "token-request-nonce" else None)
     if isinstance(idt, dict):
         return {"provider_error": idt["error"]}
     if idt is None:
@@ -376,6 +378,7 @@ def oracle(c, out):
         if pert == "access_token" and not at: effective = "none"
         if pert == "code" and cls_name(rt) != "hybrid": effective = "none"
         if pert == "nonce-missing" and cls_name(rt) == "code": effective = "none"     # nonce optional in the code flow when the RP sent none? it sent one: see below
+        if pert == "token-request-nonce": effective = "none"
         should_accept = effective in ("none", "no-at", "no-code", "nonce-missing") and in_window
         if pert == "nonce-missing":
             should_accept = in_window        # RP that did not send / remember a nonce: nothing to compare
